@@ -99,7 +99,8 @@ def do_run(seed, props):
     res = {}
     try:
         for p in props:
-            rc, out = sh('./check %s --tier quick' % p, cwd=VERIF, env=dict(os.environ, VERIF_SEED=os.environ.get('VERIF_SEED', '0')))
+            rc, out = sh('./check %s --tier quick' % p, cwd=VERIF, env=dict(os.environ, VERIF_SEED=os.environ.get('VERIF_SEED', '0'),
+                                                                            VERIF_EVIDENCE_DIR='/var/tmp/verif-seed-evidence'))
             lines = [l for l in out.splitlines() if l.startswith(('VIOLATION', 'KNOWN-FINDING', 'ERROR', p))]
             res[p] = {'exit': rc, 'lines': lines[-6:]}
             rep = None
